@@ -32,6 +32,8 @@ def op_pool():
         ("disconnect", ("a", "g"), {}), ("remove", ("g",), {}), ("set_output", ("g",), {}), ("set_output", (["g", "ghost"],), {}),
         ("@add_blackbox", (*ff, "u0", {"d": "g", "q": "h"}), {}), ("@add_blackbox", (*ff, "u0", {"d": "g", "q": "ghost"}), {}), ("@add_blackbox", (*ff, "u0", None), {}),
         ("@fill", ("u0", "feedthrough"), {}),
+        # a node already carrying the name the output pin of an instance gets when it is filled; the child's output is a buffer
+        A("f0_q", "not", fanin="a"), ("@add_blackbox", ("ftdef", ["d"], ["q"], "f0", {"d": "b"}), {}), ("@fill", ("f0", "feedthrough"), {}),
         # an instance whose pins match a child that carries a blackbox `r` of its own, and an unrelated instance that already has the
         # name the child's blackbox would get: the fill must be rejected before anything is renamed or merged
         ("@add_blackbox", ("cbbdef", ["x"], ["o"], "w0", None), {}), ("@add_blackbox", ("other", ["p"], ["z"], "w0_r", None), {}), ("@fill", ("w0", "withbb"), {}),
@@ -99,7 +101,8 @@ def short_histories_rule(chk, rule, depth, file="circuit.py"):
     base = (0, 1, 2, 4, 6)
     with_bb = base + (next(i for i, op in enumerate(pool) if op[0] == "@add_blackbox"),)
     i_w0 = [i for i, op in enumerate(pool) if op[0] == "@add_blackbox" and op[1][3] in ("w0", "w0_r")]
-    frontier = [(), base, with_bb, base + tuple(i_w0)]
+    i_f0 = [i for i, op in enumerate(pool) if op[0] == "@add_blackbox" and op[1][3] == "f0"]
+    frontier = [(), base, with_bb, base + tuple(i_w0), base + tuple(i_f0)]
     seen = {_sig(state_of(replay(sq)[0].c)) for sq in frontier}
     for level in range(depth):
         nxt = []
@@ -108,6 +111,7 @@ def short_histories_rule(chk, rule, depth, file="circuit.py"):
                 try:
                     d, removed = replay(seq)
                     before = state_of(d.c)
+                    problems_before = set(illegal(before) + _pin_problems(d.c, before, removed))
                     raised = None
                     try:
                         d.apply(op)
@@ -124,7 +128,7 @@ def short_histories_rule(chk, rule, depth, file="circuit.py"):
                 problems = []
                 bad = illegal(after) + _pin_problems(d.c, after, removed)
                 # the state before the call was legal (or already reported): report only what this call introduced
-                bad_before = set(illegal(before) + _pin_problems(d.c, before, removed)) if bad else set()
+                bad_before = problems_before
                 for b in bad:
                     if b not in bad_before:
                         problems.append(("illegal wiring after the call", b))
